@@ -107,7 +107,7 @@ func TestVtracePublicSteps(t *testing.T) {
 	}
 	defer f.Close()
 	var id uint64
-	if !asmDetected {
+	if !zvAsmDetected {
 		data, _ := json.Marshal(map[string]interface{}{"id": 0, "group": "not-applicable", "end": true})
 		f.Write(append(data, '\n'))
 		return
